@@ -1,51 +1,452 @@
 package ledger
 
+// C14 — Catchpoint labels depend only on ledger history.
+//
+// Engine E-SEQ (differential), level model_checking. Driver: common_c14_catchpoint_test.go
+// (a REAL Ledger with catchpoint tracking, blocks fed through Ledger.AddBlock, commits going
+// through the real blockQueue -> notifyCommit -> trackerRegistry.scheduleCommit ->
+// commitSyncer -> commitRound path; the only wall-clock input of that path, lastFlushTime, is
+// pinned per block, which turns "did balancesFlushInterval pass" into an explicit decision).
+//
+// Enumerated, for each deterministic block history (4 quick / 6 thorough; 20 / 24 rounds;
+// CatchpointInterval 4; consensus A: CatchpointLookback 4, consensus B: lookback 6 + stalled
+// state proofs; account / asset / app / box churn with entries modified in consecutive rounds):
+//   flush schedules  = {every block, only when forced, every 2nd, every 3rd, at catchpoint
+//                       boundaries} + every schedule that deviates from "every block" in <= k
+//                       decisions (k = 1 quick, 2 thorough) (+ deviations from "only when
+//                       forced" with k = 1 in thorough)
+//   x restart        = none, or Ledger.reloadLedger after round r for every r in 1..N
+//   x trie memory    = trackerdb.TrieMemoryConfig in {default, {2 nodes/page, 1 cached node,
+//                       .95, threshold 1}, {4, 1, .5, 2}} (+ {2, default cache, .5, 64} and
+//                       {4, default, .95, 4} in thorough)
+//   node kind alternates between "archival, stores catchpoint files" and "non-archival, tracks
+//   labels only". Extra (not multiplied): LRU caches enabled (config default; the product runs
+//   with DisableLedgerLRUCache because allocating the 100k-entry cache buffers at every open
+//   dominates the run time), file backed databases with close+OpenLedger as restart.
+//
+// Oracle (no hand-written expectation): within one history, every run must agree with every
+// other run on
+//   - the label of each catchpoint round it produced (labels are collected from
+//     GetLastCatchpointLabel after every step and from the header of every catchpoint file),
+//   - the label-relevant part of each first-stage record it produced (balances trie root,
+//     totals, state proof verification hash, online accounts hash, online round params hash),
+//   - the balances trie root at each tracker DB round it passed through,
+// and no run may fail (AddBlock / reload error) or log a merkle-trie inconsistency.
+// A run that did not produce a label for some round (the tracker legitimately skips rounds
+// when one commit spans several of them) is not a violation; the count is reported.
+// Non-vacuity: the reference run of every history must produce >= 3 labels; label sets of
+// different histories must be disjoint.
+//
+// State (evidence "states"): distinct (history, trie config, round, tracker DB round, number
+// of labels produced, restarted?) tuples reached; transitions: executed AddBlock / restart
+// operations; traces: runs.
+//
+// Not covered: crash points inside a commit (C09's subject), consensus upgrades inside a
+// history, catchpoint intervals other than 4, histories longer than 24 rounds.
+//
+// Mutants (bin/mut C14 ...):
+//   M1 catchpointtracker.go accountsUpdateBalances: skip the delete-hash of a resource that
+//      was modified more than once in the commit range                        => DETECTED
+//   M2 catchpointtracker.go postCommitUnlocked: label built with the block hash of the last
+//      round of the commit range instead of the catchpoint round              => DETECTED
+//   M3 (own) catchpointtracker.go finishFirstStage: online history filter (onlineExcludeBefore)
+//      dropped, so the online-accounts hash covers whatever history the node happens to
+//      retain                                                                 => see report
+
 import (
 	"fmt"
+	"strings"
+	"sync/atomic"
 	"testing"
-	"time"
 
+	"github.com/algorand/go-algorand/crypto/merkletrie"
+	"github.com/algorand/go-algorand/data/basics"
+	"github.com/algorand/go-algorand/ledger/store/trackerdb"
 	ve "github.com/algorand/go-algorand/verifeng"
 )
 
-func TestVerif_C14(t *testing.T) {
-	dir := ve.ScratchDir("c14")
-	defer c14RemoveAll(dir)
-	t0 := time.Now()
-	t9 := time.Now()
-	hq := c14HistQuiet(t, dir, c14ProtoA, 24)
-	fmt.Println("quiet took", time.Since(t9), hq.Txns)
-	t9 = time.Now()
-	hq = c14HistBoxes(t, dir, c14ProtoA, 24)
-	fmt.Println("boxes took", time.Since(t9), hq.Txns)
-	hs := []*c14History{
-		c14HistMixed(t, dir, "mixedA", c14ProtoA, c14DefaultVariant()),
-		c14HistMixed(t, dir, "mixedB", c14ProtoB, c14DefaultVariant()),
-		c14HistBoxes(t, dir, c14ProtoA, 24),
-		c14HistAssets(t, dir, c14ProtoB, 24),
-		c14HistAccounts(t, dir, c14ProtoB, 24),
-		c14HistApps(t, dir, c14ProtoA, 24),
-		c14HistQuiet(t, dir, c14ProtoB, 24),
+type c14Job struct {
+	hist    int
+	sched   string // name
+	flush   []bool
+	restart int
+	reopen  bool
+	burstAt int
+	burstN  int
+	node    c14NodeCfg
+	cfgName string
+}
+
+func (j *c14Job) describe(hs []*c14History) map[string]any {
+	var sb strings.Builder
+	for _, f := range j.flush {
+		if f {
+			sb.WriteByte('1')
+		} else {
+			sb.WriteByte('0')
+		}
 	}
-	fmt.Println("built histories in", time.Since(t0))
-	for _, h := range hs[:3] {
-		for _, stored := range []bool{true, false} {
-			for _, mode := range []string{"ones", "zeros"} {
-				t1 := time.Now()
-				n, err := c14OpenNode(h.Gen, dir, fmt.Sprintf("n-%s-%v-%s", h.Name, stored, mode), c14NodeCfg{Stored: stored, InMem: true, NoLRU: mode == "zeros"})
-				if err != nil {
-					t.Fatal(err)
+	return map[string]any{"engine": "c14", "history": hs[j.hist].Name, "schedule": j.sched, "flush_bits": sb.String(), "restart_after": j.restart, "burst_start": j.burstAt, "burst_len": j.burstN,
+		"reopen": j.reopen, "stored": j.node.Stored, "in_mem": j.node.InMem, "no_lru": j.node.NoLRU, "trie_config": j.cfgName}
+}
+
+type c14Res struct {
+	obs    *c14Obs
+	err    error
+	states []string
+	ops    int64
+}
+
+func c14Schedules(n int, kOnes, kZeros int) (names []string, scheds [][]bool) {
+	mk := func(f func(r int) bool) []bool {
+		s := make([]bool, n)
+		for i := range s {
+			s[i] = f(i + 1)
+		}
+		return s
+	}
+	add := func(name string, s []bool) {
+		names = append(names, name)
+		scheds = append(scheds, s)
+	}
+	add("every-block", mk(func(int) bool { return true }))
+	add("forced-only", mk(func(int) bool { return false }))
+	add("every-2nd", mk(func(r int) bool { return r%2 == 0 }))
+	add("every-3rd", mk(func(r int) bool { return r%3 == 0 }))
+	add("boundaries", mk(func(r int) bool { return r%c14CatchpointInterval == 0 }))
+	dev := func(base bool, k int, tag string) {
+		if k >= 1 {
+			for i := 0; i < n; i++ {
+				s := mk(func(int) bool { return base })
+				s[i] = !base
+				add(fmt.Sprintf("%s^%d", tag, i+1), s)
+			}
+		}
+		if k >= 2 {
+			for i := 0; i < n; i++ {
+				for j := i + 1; j < n; j++ {
+					s := mk(func(int) bool { return base })
+					s[i], s[j] = !base, !base
+					add(fmt.Sprintf("%s^%d,%d", tag, i+1, j+1), s)
 				}
-				fmt.Println("open took", time.Since(t1))
-				p0 := c14Plan{RestartAt: 10}
-				p := p0
-				if mode == "zeros" {
-					p.Flush = make([]bool, h.rounds())
-				}
-				o, err := c14Run(n, h, p)
-				fmt.Printf("%s stored=%v %s: err=%v labels=%v fs=%v roots=%d flushes=%v log=%d %v took %v\n", h.Name, stored, mode, err, len(o.Labels), c14SortedRounds(o.FirstStage), len(o.Roots), len(o.Flushes), o.LogProblems, o.LogMsgs, time.Since(t1))
-				n.close()
 			}
 		}
 	}
+	dev(true, kOnes, "every-block")
+	dev(false, kZeros, "forced-only")
+	return
+}
+
+type c14TrieCfg struct {
+	name string
+	cfg  merkletrie.MemoryConfig
+}
+
+func TestVerif_C14(t *testing.T) {
+	r := ve.NewRun("C14", "model_checking")
+	r.Assume("flush timing enters trackerRegistry.scheduleCommit only through lastFlushTime (pinned per block) and pendingDeltas>=128 (never reached by these histories); everything else is the real asynchronous commit path, synchronised by waiting for notifyCommit(r) and accountsWriting")
+	r.Assume("restart = Ledger.reloadLedger on the same open databases (plus close+OpenLedger on file backed databases for a subset); crash points inside a commit are out of scope (C09)")
+	dir := ve.ScratchDir("c14")
+	defer c14RemoveAll(dir)
+
+	rounds := ve.Pick(20, 24)
+	hs := []*c14History{
+		c14HistMixed(t, dir, "mixedB", c14ProtoB, func() c14Variant { v := c14DefaultVariant(); v.Rounds = rounds; return v }()),
+		c14HistBoxes(t, dir, c14ProtoA, rounds),
+		c14HistAssets(t, dir, c14ProtoB, rounds),
+		c14HistAccounts(t, dir, c14ProtoA, rounds),
+	}
+	if ve.Thorough() {
+		hs = append(hs,
+			c14HistApps(t, dir, c14ProtoA, rounds),
+			c14HistQuiet(t, dir, c14ProtoB, rounds),
+			c14HistMixed(t, dir, "mixedA", c14ProtoA, func() c14Variant { v := c14DefaultVariant(); v.Rounds = rounds; return v }()))
+	}
+	def := trackerdb.TrieMemoryConfig
+	defer func() { trackerdb.TrieMemoryConfig = def }()
+	cfgs := []c14TrieCfg{
+		{"default", def},
+		{"2/1/.95/1", merkletrie.MemoryConfig{NodesCountPerPage: 2, CachedNodesCount: 1, PageFillFactor: 0.95, MaxChildrenPagesThreshold: 1}},
+		{"4/1/.5/2", merkletrie.MemoryConfig{NodesCountPerPage: 4, CachedNodesCount: 1, PageFillFactor: 0.5, MaxChildrenPagesThreshold: 2}},
+	}
+	if ve.Thorough() {
+		cfgs = append(cfgs,
+			c14TrieCfg{"2/def/.5/64", merkletrie.MemoryConfig{NodesCountPerPage: 2, CachedNodesCount: def.CachedNodesCount, PageFillFactor: 0.5, MaxChildrenPagesThreshold: 64}},
+			c14TrieCfg{"4/def/.95/4", merkletrie.MemoryConfig{NodesCountPerPage: 4, CachedNodesCount: def.CachedNodesCount, PageFillFactor: 0.95, MaxChildrenPagesThreshold: 4}})
+	}
+	if only := ve.Env("VERIF_C14_ONLYCFG", ""); only != "" { // diagnosis aid, not used by the registered check
+		var keep []c14TrieCfg
+		for _, c := range cfgs {
+			if c.name == only {
+				keep = append(keep, c)
+			}
+		}
+		cfgs = keep
+	}
+	schedNames, scheds := c14Schedules(rounds, ve.Pick(1, 2), ve.Pick(0, 1))
+
+	// reference per history: first value seen in job order
+	type ref struct {
+		labels map[basics.Round]string
+		fs     map[basics.Round]string
+		roots  map[basics.Round]string
+		by     map[string]map[string]any // who contributed which key
+	}
+	refs := make([]*ref, len(hs))
+	for i := range refs {
+		refs[i] = &ref{labels: map[basics.Round]string{}, fs: map[basics.Round]string{}, roots: map[basics.Round]string{}, by: map[string]map[string]any{}}
+	}
+	states := map[string]struct{}{}
+	var transitions, traces, labelsSeen, labelsMissing int64
+	labelCountClasses := map[int]int{}
+	flushPatterns := map[string]struct{}{}
+	var reported atomic.Int64
+
+	fsKey := func(fi trackerdb.CatchpointFirstStageInfo) string {
+		return fmt.Sprintf("root=%s totals=%+v sp=%s oa=%s orp=%s", fi.TrieBalancesHash, fi.Totals, fi.StateProofVerificationHash, fi.OnlineAccountsHash, fi.OnlineRoundParamsHash)
+	}
+
+	runJobs := func(jobs []c14Job) {
+		results := make([]c14Res, len(jobs))
+		var seq atomic.Int64
+		r.ParallelFor(len(jobs), func(i int) {
+			j := &jobs[i]
+			h := hs[j.hist]
+			id := seq.Add(1)
+			n, err := c14OpenNode(h.Gen, dir, fmt.Sprintf("n%s-%d-%d", strings.ReplaceAll(j.cfgName, "/", "_"), i, id), j.node)
+			if err != nil {
+				results[i].err = fmt.Errorf("OpenLedger: %v", err)
+				return
+			}
+			o, err := c14RunTraced(n, h, c14Plan{Flush: j.flush, RestartAt: j.restart, Reopen: j.reopen, BurstStart: j.burstAt, BurstLen: j.burstN}, &results[i].states)
+			results[i].obs, results[i].err, results[i].ops = o, err, n.ops
+			n.close()
+			if !j.node.InMem {
+				c14RemoveAll(n.prefix)
+				for _, suf := range []string{".tracker.sqlite", ".block.sqlite", ".tracker.sqlite-wal", ".tracker.sqlite-shm", ".block.sqlite-wal", ".block.sqlite-shm"} {
+					c14RemoveAll(n.prefix + suf)
+				}
+			} else if j.node.Stored {
+				c14RemoveAll(n.prefix)
+			}
+			r.Eval()
+		})
+		// deterministic comparison in job order
+		for i := range jobs {
+			j := &jobs[i]
+			res := &results[i]
+			if res.obs == nil && res.err == nil {
+				continue // skipped (budget)
+			}
+			rf := refs[j.hist]
+			desc := j.describe(hs)
+			traces++
+			transitions += res.ops
+			for _, s := range res.states {
+				states[hs[j.hist].Name+"/"+j.cfgName+"/"+s] = struct{}{}
+			}
+			report := func(key, what string, other map[string]any) {
+				if reported.Add(1) > 12 {
+					return
+				}
+				r.Report(key, fmt.Sprintf("history %s: %s; this run: %s; reference run: %s", hs[j.hist].Name, what, ve.JSON(desc), ve.JSON(other)), map[string]any{"this": desc, "reference": other})
+			}
+			if res.err != nil {
+				report("C14:run-error", fmt.Sprintf("the run failed: %v (log: %v)", res.err, res.obs.LogMsgs), nil)
+				continue
+			}
+			o := res.obs
+			for _, m := range o.LogMsgs {
+				if strings.Contains(m, "merkle trie") || strings.Contains(m, "Could not commit") || strings.Contains(m, "unable to advance tracker") || strings.Contains(m, "error creating catchpoint") || strings.Contains(m, "error finishing catchpoint") {
+					report("C14:tracker-error-log", "the ledger logged: "+m, nil)
+					break
+				}
+			}
+			for _, rnd := range c14SortedRounds(o.Labels) {
+				labelsSeen++
+				k := fmt.Sprintf("label/%d", rnd)
+				if want, ok := rf.labels[rnd]; !ok {
+					rf.labels[rnd] = o.Labels[rnd]
+					rf.by[k] = desc
+				} else if want != o.Labels[rnd] {
+					report("C14:label-differs", fmt.Sprintf("catchpoint round %d has label %s here but %s in the reference run", rnd, o.Labels[rnd], want), rf.by[k])
+				}
+			}
+			for _, rnd := range c14SortedRounds(o.FirstStage) {
+				k := fmt.Sprintf("fs/%d", rnd)
+				got := fsKey(o.FirstStage[rnd])
+				if want, ok := rf.fs[rnd]; !ok {
+					rf.fs[rnd] = got
+					rf.by[k] = desc
+				} else if want != got {
+					report("C14:first-stage-differs", fmt.Sprintf("first stage record of accounts round %d is {%s} here but {%s} in the reference run", rnd, got, want), rf.by[k])
+				}
+			}
+			for _, rnd := range c14SortedRounds(o.Roots) {
+				k := fmt.Sprintf("root/%d", rnd)
+				got := o.Roots[rnd].String()
+				if want, ok := rf.roots[rnd]; !ok {
+					rf.roots[rnd] = got
+					rf.by[k] = desc
+				} else if want != got {
+					report("C14:trie-root-differs", fmt.Sprintf("balances trie root at tracker round %d is %s here but %s in the reference run", rnd, got, want), rf.by[k])
+				}
+			}
+			labelCountClasses[len(o.Labels)]++
+			var fp strings.Builder
+			for _, f := range o.Flushes {
+				fmt.Fprintf(&fp, "%d-%d;", f.OldBase, f.NewBase)
+			}
+			flushPatterns[hs[j.hist].Name+"/"+fp.String()] = struct{}{}
+		}
+	}
+
+	// Phases (sequential, because trackerdb.TrieMemoryConfig is a process global): first the
+	// five base schedules under every trie configuration, then the deviation schedules under
+	// every trie configuration, then the extras. A budget cap therefore cuts the least
+	// important part and the completed bound is reported.
+	type phase struct {
+		name       string
+		cfg        int
+		schedFrom  int
+		schedTo    int
+		extras     bool
+		checkRefs  bool
+		restartAll bool
+	}
+	var phases []phase
+	for ci := range cfgs {
+		phases = append(phases, phase{name: "base-schedules/" + cfgs[ci].name, cfg: ci, schedFrom: 0, schedTo: 5, checkRefs: ci == 0})
+	}
+	phases = append(phases, phase{name: "extras", cfg: 0, extras: true})
+	for ci := range cfgs {
+		phases = append(phases, phase{name: "deviation-schedules/" + cfgs[ci].name, cfg: ci, schedFrom: 5, schedTo: len(scheds)})
+	}
+	exhaustive := true
+	var completed []string
+	for _, ph := range phases {
+		if r.OutOfTime() {
+			exhaustive = false
+			break
+		}
+		tc := cfgs[ph.cfg]
+		trackerdb.TrieMemoryConfig = tc.cfg
+		var jobs []c14Job
+		for hi := range hs {
+			for si := ph.schedFrom; si < ph.schedTo; si++ {
+				for rs := 0; rs <= rounds; rs++ {
+					jobs = append(jobs, c14Job{hist: hi, sched: schedNames[si], flush: scheds[si], restart: rs, cfgName: tc.name,
+						node: c14NodeCfg{Stored: (si+rs)%2 == 0, InMem: true, NoLRU: true}})
+				}
+			}
+			if ph.extras {
+				// LRU caches enabled (config default)
+				jobs = append(jobs, c14Job{hist: hi, sched: schedNames[0], flush: scheds[0], restart: 0, cfgName: tc.name, node: c14NodeCfg{Stored: true, InMem: true}})
+				jobs = append(jobs, c14Job{hist: hi, sched: schedNames[1], flush: scheds[1], restart: rounds/2 + 1, cfgName: tc.name, node: c14NodeCfg{Stored: false, InMem: true}})
+				jobs = append(jobs, c14Job{hist: hi, sched: schedNames[2], flush: scheds[2], restart: 0, cfgName: tc.name, node: c14NodeCfg{Stored: true, InMem: true}})
+				if ve.Thorough() {
+					for si := 0; si < 5; si++ {
+						jobs = append(jobs, c14Job{hist: hi, sched: schedNames[si], flush: scheds[si], restart: rounds/2 + si, cfgName: tc.name, node: c14NodeCfg{Stored: si%2 == 1, InMem: true}})
+					}
+				}
+				// file backed, process restart (close + OpenLedger)
+				var rsts []int
+				if ve.Thorough() {
+					for rs := 1; rs <= rounds; rs++ {
+						rsts = append(rsts, rs)
+					}
+				} else {
+					rsts = []int{rounds / 4, rounds/2 + 1, 3*rounds/4 + 2}
+				}
+				for si := 0; si < ve.Pick(2, 5); si++ {
+					for _, rs := range rsts {
+						jobs = append(jobs, c14Job{hist: hi, sched: schedNames[si], flush: scheds[si], restart: rs, reopen: true, cfgName: tc.name, node: c14NodeCfg{Stored: (si+rs)%2 == 0, NoLRU: true}})
+					}
+				}
+				// block queue batches: rounds s..s+k-1 persisted at once (single committedUpTo)
+				for _, k := range ve.Pick([]int{3, 7}, []int{2, 3, 5, 7, 10}) {
+					for st := 1; st+k-1 <= rounds; st++ {
+						for _, si := range []int{0, 1} {
+							jobs = append(jobs, c14Job{hist: hi, sched: schedNames[si], flush: scheds[si], burstAt: st, burstN: k, cfgName: tc.name, node: c14NodeCfg{Stored: (st+k)%2 == 0, InMem: true, NoLRU: true}})
+						}
+					}
+				}
+				// other MaxAcctLookback values
+				for _, mal := range ve.Pick([]uint64{2}, []uint64{1, 2, 8}) {
+					for si := 0; si < ve.Pick(2, 5); si++ {
+						jobs = append(jobs, c14Job{hist: hi, sched: schedNames[si], flush: scheds[si], restart: rounds / 2, cfgName: tc.name, node: c14NodeCfg{Stored: true, InMem: true, NoLRU: true, MaxAcctLookback: mal}})
+					}
+				}
+			}
+		}
+		runJobs(jobs)
+		if r.WasCapped() {
+			exhaustive = false
+			r.Note("budget cap hit in phase %s", ph.name)
+			break
+		}
+		completed = append(completed, ph.name)
+		if ph.checkRefs {
+			// non-vacuity of the reference
+			for hi, rf := range refs {
+				if len(rf.labels) < 3 {
+					t.Fatalf("harness: history %s produced only %d labels in the default configuration", hs[hi].Name, len(rf.labels))
+				}
+			}
+		}
+		if r.Violations() > 0 {
+			exhaustive = false
+			break
+		}
+	}
+	r.Set("phases_completed", completed)
+	trackerdb.TrieMemoryConfig = def
+
+	// labels of different histories must differ
+	seenLabel := map[string]string{}
+	for hi, rf := range refs {
+		for _, rnd := range c14SortedRounds(rf.labels) {
+			l := rf.labels[rnd]
+			if prev, ok := seenLabel[l]; ok {
+				t.Fatalf("harness: label %s produced by both %s and %s", l, prev, hs[hi].Name)
+			}
+			seenLabel[l] = hs[hi].Name
+			r.Class("label/" + l)
+		}
+		for _, rnd := range c14SortedRounds(rf.roots) {
+			r.Class("root/" + hs[hi].Name + "/" + rf.roots[rnd])
+		}
+	}
+	var hsum []string
+	for hi, rf := range refs {
+		hsum = append(hsum, fmt.Sprintf("%s(%s,%d rounds,%d txns): labels at %v, first stage at %v, %d trie roots", hs[hi].Name, hs[hi].Proto, hs[hi].rounds(), hs[hi].Txns, c14SortedRounds(rf.labels), c14SortedRounds(rf.fs), len(rf.roots)))
+		r.Sample(map[string]any{"history": hs[hi].Name, "labels": rf.labels})
+	}
+	r.Set("histories", hsum)
+	r.Set("schedules_per_history", len(scheds))
+	r.Set("restart_points", rounds+1)
+	r.Set("trie_configs", len(cfgs))
+	r.Set("labels_observed", labelsSeen)
+	r.Set("distinct_labels", len(seenLabel))
+	r.Set("distinct_flush_patterns", len(flushPatterns))
+	lc := map[string]int{}
+	for k, v := range labelCountClasses {
+		lc[fmt.Sprint(k)] = v
+		if k < ve.Pick(3, 4) {
+			labelsMissing += int64(v)
+		}
+	}
+	r.Set("runs_by_number_of_labels", lc)
+	n := r.Finish(ve.Coverage{Rule: fmt.Sprintf("%d histories x %d flush schedules x %d restart points x %d trie memory configs (+LRU-enabled, file-backed/reopen extras), each run on a real Ledger; all runs of a history must agree on labels, first-stage records and trie roots", len(hs), len(scheds), rounds+1, len(cfgs)),
+		States: int64(len(states)), Transitions: transitions, Traces: traces, Exhaustive: exhaustive})
+	if n > 0 {
+		t.Fatalf("C14: %d violation(s)", n)
+	}
+}
+
+// c14RunTraced is c14Run that additionally records a state key after every step.
+func c14RunTraced(n *c14Node, h *c14History, p c14Plan, states *[]string) (*c14Obs, error) {
+	return c14RunHook(n, h, p, func(step int, restarted bool, o *c14Obs) {
+		*states = append(*states, fmt.Sprintf("%d/%d/%d/%v", step, n.dbRound(), len(o.Labels), restarted))
+	})
 }
